@@ -672,6 +672,19 @@ func genC20(e *emitter, r *rng, thorough bool) {
 			}
 		}
 	}
+	// envelopes whose signed bytes are EMPTY (a valid signature over SHA-256 of the empty string): the empty payload, a JSON
+	// payload made of backslashes only, base64 of nothing (also with line breaks, which the decoder skips)
+	{
+		priv := privOf(big.NewInt(4242))
+		pkHex := hex.EncodeToString(priv.PubKey().SerialiseCompressed())
+		if sig, err := priv.Sign(crypto.Sha256(nil)); err == nil {
+			sigHex := hex.EncodeToString(sig.Serialise())
+			for _, c := range [][2]string{{"", "text/plain"}, {"", "application/json"}, {"", "base64"}, {"", ""}, {`\`, "application/json"}, {`\\\\`, "application/json"},
+				{"\r\n", "base64"}, {"\n", "base64"}, {"=", "base64"}, {"====", "base64"}, {`\`, "text/plain"}, {" ", "base64"}, {" ", "text/plain"}} {
+				e.emit("empty-signed-bytes", fmt.Sprintf("env.valid %s %s %s %s", hx([]byte(c[0])), hx([]byte(sigHex)), hx([]byte(pkHex)), hx([]byte(c[1]))))
+			}
+		}
+	}
 	// IsValid decision table
 	mimes := []string{"application/json", "base64", "text/plain", "", "application/json; charset=utf-8", "application/jsonl", "Application/JSON", "application/json ", "base64 ", "BASE64"}
 	nv := 6
